@@ -188,9 +188,6 @@ def production_generator(name):
 
 
 def backend_of(g):
-    names = [c.__qualname__ for c in type(g).__mro__]
-    if any("LibSECP256K1" in n or n == "Optimizations" and False for n in names):
-        return "libsecp256k1"
     for c in type(g).__mro__:
         if c.__module__.endswith("native.secp256k1") and c.__name__ == "Optimizations":
             return "libsecp256k1"
